@@ -90,6 +90,7 @@ package rtcp
 //@ func (r SenderReport) Marshal() (result []byte, err error)
 //@   safety[C09]
 //@   fresh
+//@   requires[C09] bounded: len(r.Reports) <= 1<<20 && len(r.ProfileExtensions) <= 1<<30
 //@   ensures[C08] count: err == nil ==> len(r.Reports) <= 31
 //@   ensures[C08] lost: forall k :: err == nil && 0 <= k && k < len(r.Reports) ==> r.Reports[k].TotalLost < 1<<24
 //@   ensures[C08] complete: exists k :: err != nil ==> len(r.Reports) > 31 || (0 <= k && k < len(r.Reports) && r.Reports[k].TotalLost >= 1<<24)
@@ -155,6 +156,7 @@ package rtcp
 //@ func (r ReceiverReport) Marshal() (result []byte, err error)
 //@   safety[C09]
 //@   fresh
+//@   requires[C09] bounded: len(r.Reports) <= 1<<20 && len(r.ProfileExtensions) <= 1<<30
 //@   ensures[C08] count: err == nil ==> len(r.Reports) <= 31
 //@   ensures[C08] lost: forall k :: err == nil && 0 <= k && k < len(r.Reports) ==> r.Reports[k].TotalLost < 1<<24
 //@   ensures[C08] complete: exists k :: err != nil ==> len(r.Reports) > 31 || (0 <= k && k < len(r.Reports) && r.Reports[k].TotalLost >= 1<<24)
@@ -421,9 +423,10 @@ package rtcp
 //@   allocates[C01] 64 + 2*len(rawPacket)
 //@   ensures[C07] type: err == nil ==> rawPacket[0]>>6 == 2 && rawPacket[1] == 206 && rawPacket[0]&31 == 2
 //@   ensures[C04] fields: err == nil ==> p.SenderSSRC == be32(rawPacket, 4) && p.MediaSSRC == be32(rawPacket, 8)
+//@   ensures[C04] framed: err == nil ==> len(rawPacket) >= 12 && (be16(rawPacket, 2) < 16384 ==> be16(rawPacket, 2) >= 2 && len(rawPacket) >= 4+4*int(be16(rawPacket, 2)))
 //@   ensures[C04] count: err == nil && be16(rawPacket, 2) < 16384 ==> len(p.SLI) == int(be16(rawPacket, 2)) - 2
 //@   ensures[C04,C16] entries: forall k :: err == nil && 0 <= k && k < len(p.SLI) ==> p.SLI[k] == specSLIDecode(be32(rawPacket, 12+4*k))
-//@   ensures[C04] accepts: len(rawPacket) >= 12 && rawPacket[0]>>6 == 2 && rawPacket[1] == 206 && rawPacket[0]&31 == 2 && be16(rawPacket, 2) >= 2 && be16(rawPacket, 2) < 16384 && len(rawPacket) >= 4+4*int(be16(rawPacket, 2)) ==> err == nil
+//@   ensures[C04] accepts: len(rawPacket) >= 12 && rawPacket[0]>>6 == 2 && rawPacket[1] == 206 && rawPacket[0]&31 == 2 && int(be16(rawPacket, 2)) >= 2 && int(be16(rawPacket, 2)) < 16384 && len(rawPacket) >= 4+4*int(be16(rawPacket, 2)) ==> err == nil
 //@   loop 1
 //@     invariant i == 12 + 4*len(p.SLI) && i <= 4+int(h.Length*4) && unchanged(p.SenderSSRC) && unchanged(p.MediaSSRC)
 //@     invariant[C04,C16] forall k :: 0 <= k && k < len(p.SLI) ==> p.SLI[k] == specSLIDecode(be32(rawPacket, 12+4*k))
@@ -473,9 +476,10 @@ package rtcp
 //@   allocates[C01] 64 + 2*len(rawPacket)
 //@   ensures[C07] type: err == nil ==> rawPacket[0]>>6 == 2 && rawPacket[1] == 206 && rawPacket[0]&31 == 4
 //@   ensures[C04] fields: err == nil ==> p.SenderSSRC == be32(rawPacket, 4) && p.MediaSSRC == be32(rawPacket, 8)
-//@   ensures[C04] count: err == nil && be16(rawPacket, 2) < 16384 ==> 8*len(p.FIR) == 4*int(be16(rawPacket, 2)) - 8
+//@   ensures[C04] framed: err == nil ==> len(rawPacket) >= 12 && (be16(rawPacket, 2) < 16384 ==> be16(rawPacket, 2) >= 4 && be16(rawPacket, 2)%2 == 0 && len(rawPacket) >= 4+4*int(be16(rawPacket, 2)))
+//@   ensures[C04] count: err == nil && be16(rawPacket, 2) < 16384 ==> 2*len(p.FIR) == int(be16(rawPacket, 2)) - 2
 //@   ensures[C04,C16] entries: forall k :: err == nil && 0 <= k && k < len(p.FIR) ==> p.FIR[k].SSRC == be32(rawPacket, 12+8*k) && p.FIR[k].SequenceNumber == rawPacket[12+8*k+4]
-//@   ensures[C04] accepts: len(rawPacket) >= 12 && rawPacket[0]>>6 == 2 && rawPacket[1] == 206 && rawPacket[0]&31 == 4 && be16(rawPacket, 2) >= 4 && be16(rawPacket, 2)%2 == 0 && be16(rawPacket, 2) < 16384 && len(rawPacket) >= 4+4*int(be16(rawPacket, 2)) ==> err == nil
+//@   ensures[C04] accepts: len(rawPacket) >= 12 && rawPacket[0]>>6 == 2 && rawPacket[1] == 206 && rawPacket[0]&31 == 4 && int(be16(rawPacket, 2)) >= 4 && int(be16(rawPacket, 2))%2 == 0 && int(be16(rawPacket, 2)) < 16384 && len(rawPacket) >= 4+4*int(be16(rawPacket, 2)) ==> err == nil
 //@   loop 1
 //@     invariant i == 12 + 8*len(p.FIR) && i <= 4+int(h.Length*4) && unchanged(p.SenderSSRC) && unchanged(p.MediaSSRC)
 //@     invariant[C04,C16] forall k :: 0 <= k && k < len(p.FIR) ==> p.FIR[k].SSRC == be32(rawPacket, 12+8*k) && p.FIR[k].SequenceNumber == rawPacket[12+8*k+4]
@@ -534,9 +538,10 @@ package rtcp
 //@   allocates[C01] 64 + 2*len(rawPacket)
 //@   ensures[C07] type: err == nil ==> rawPacket[0]>>6 == 2 && rawPacket[1] == 205 && rawPacket[0]&31 == 1
 //@   ensures[C04] fields: err == nil ==> p.SenderSSRC == be32(rawPacket, 4) && p.MediaSSRC == be32(rawPacket, 8)
+//@   ensures[C04] framed: err == nil ==> len(rawPacket) >= 12 && (be16(rawPacket, 2) < 16384 ==> be16(rawPacket, 2) >= 3 && len(rawPacket) >= 4+4*int(be16(rawPacket, 2)))
 //@   ensures[C04] count: err == nil && be16(rawPacket, 2) < 16384 ==> len(p.Nacks) == int(be16(rawPacket, 2)) - 2
 //@   ensures[C04,C16] pairs: forall k :: err == nil && 0 <= k && k < len(p.Nacks) ==> p.Nacks[k].PacketID == be16(rawPacket, 12+4*k) && uint16(p.Nacks[k].LostPackets) == be16(rawPacket, 12+4*k+2)
-//@   ensures[C04] accepts: len(rawPacket) >= 12 && rawPacket[0]>>6 == 2 && rawPacket[1] == 205 && rawPacket[0]&31 == 1 && be16(rawPacket, 2) >= 3 && be16(rawPacket, 2) < 16384 && len(rawPacket) >= 4+4*int(be16(rawPacket, 2)) ==> err == nil
+//@   ensures[C04] accepts: len(rawPacket) >= 12 && rawPacket[0]>>6 == 2 && rawPacket[1] == 205 && rawPacket[0]&31 == 1 && int(be16(rawPacket, 2)) >= 3 && int(be16(rawPacket, 2)) < 16384 && len(rawPacket) >= 4+4*int(be16(rawPacket, 2)) ==> err == nil
 //@   loop 1
 //@     invariant i == 12 + 4*len(p.Nacks) && i <= 4+int(h.Length*4) && unchanged(p.SenderSSRC) && unchanged(p.MediaSSRC)
 //@     invariant[C04,C16] forall k :: 0 <= k && k < len(p.Nacks) ==> p.Nacks[k].PacketID == be16(rawPacket, 12+4*k) && uint16(p.Nacks[k].LostPackets) == be16(rawPacket, 12+4*k+2)
@@ -591,10 +596,10 @@ package rtcp
 // ===================================================================================================
 
 //@ func specItemsLen(items []SourceDescriptionItem, n int) (result int)
-//@   rec
+//@   rec monotone
 
 //@ func specChunksLen(cs []SourceDescriptionChunk, n int) (result int)
-//@   rec
+//@   rec monotone
 
 //@ func (s SourceDescriptionItem) Len() (result int)
 //@   safety[C01,C09,C17]
@@ -858,6 +863,7 @@ package rtcp
 //@   safety[C09]
 //@   fresh
 //@   unroll 1 15
+//@   requires[C09] bounded: len(r.SymbolList) <= 14
 //@   ensures[C03,C13,C16] one: err == nil && r.SymbolSize == 0 && len(r.SymbolList) == 14 ==> len(result) == 2 && be16(result, 0)>>14 == 2
 //@   ensures[C03,C13,C16] one_symbols: forall i :: err == nil && r.SymbolSize == 0 && len(r.SymbolList) == 14 && 0 <= i && i < 14 ==> specVectorSymbol1(be16(result, 0), i) == r.SymbolList[i]&1
 //@   ensures[C03,C13,C16] two: err == nil && r.SymbolSize == 1 && len(r.SymbolList) == 7 ==> len(result) == 2 && be16(result, 0)>>14 == 3
@@ -899,7 +905,7 @@ package rtcp
 // ===================================================================================================
 
 //@ func specDeltasLen(ds []*RecvDelta, n int) (result int)
-//@   rec
+//@   rec monotone
 
 //@ func (t *TransportLayerCC) Unmarshal(rawPacket []byte) (err error)
 //@   safety[C01]
@@ -970,7 +976,7 @@ package rtcp
 // ===================================================================================================
 
 //@ func specCCBlocksLen(bs []CCFeedbackReportBlock, n int) (result int)
-//@   rec
+//@   rec monotone
 
 //@ func (b CCFeedbackMetricBlock) marshal() (result []byte, err error)
 //@   safety[C09]
@@ -1042,6 +1048,7 @@ package rtcp
 //@   safety[C09,C17]
 //@   mathint
 //@   ensures hdr: result == Header{Padding: false, Count: 11, Type: TypeTransportSpecificFeedback, Length: uint16((12+specCCBlocksLen(b.ReportBlocks, len(b.ReportBlocks)))/4 - 1)}
+//@   ensures aligned: specCCBlocksLen(b.ReportBlocks, len(b.ReportBlocks))%4 == 0 && specCCBlocksLen(b.ReportBlocks, len(b.ReportBlocks)) >= 0
 
 //@ func (b CCFeedbackReport) DestinationSSRC() (result []uint32)
 //@   safety[C09,C10]
@@ -1231,7 +1238,7 @@ package rtcp
 //@   safety[C09]
 //@   fresh
 //@   requires[C09] nonnil: forall k :: 0 <= k && k < len(t.RecvDeltas) ==> t.RecvDeltas[k] != nil
-//@   requires[C09] chunks: forall k :: 0 <= k && k < len(t.PacketChunks) ==> t.PacketChunks[k] != nil
+//@   requires[C09] chunks: forall k :: 0 <= k && k < len(t.PacketChunks) ==> isType(t.PacketChunks[k], (*RunLengthChunk)(nil)) || (isType(t.PacketChunks[k], (*StatusVectorChunk)(nil)) && len(dyn(t.PacketChunks[k], (*StatusVectorChunk)(nil)).SymbolList) <= 14)
 //@   requires[C09] bounded: 20 + 2*len(t.PacketChunks) + specDeltasLen(t.RecvDeltas, len(t.RecvDeltas)) <= 65532
 //@   ensures[C08] hdr: err == nil ==> t.Header.Count <= 31
 //@   ensures[C08] deltas: forall k :: err == nil && 0 <= k && k < len(t.RecvDeltas) ==> (t.RecvDeltas[k].Type == 1 && 0 <= t.RecvDeltas[k].Delta/250 && t.RecvDeltas[k].Delta/250 <= 255) || (t.RecvDeltas[k].Type == 2 && -32768 <= t.RecvDeltas[k].Delta/250 && t.RecvDeltas[k].Delta/250 <= 32767)
@@ -1244,7 +1251,7 @@ package rtcp
 //@     invariant[C03] be32(payload, 0) == t.SenderSSRC && be32(payload, 4) == t.MediaSSRC && be16(payload, 8) == t.BaseSequenceNumber && be16(payload, 10) == t.PacketStatusCount && be24(payload, 12) == t.ReferenceTime&0xFFFFFF && payload[15] == t.FbPktCount
 //@     decreases len(t.PacketChunks) - iter()
 //@   loop 2
-//@     invariant 0 <= iter() && iter() <= len(t.RecvDeltas) && 0 <= i && i <= 2*iter() && len(payload) == 16 + 2*len(t.PacketChunks) + specDeltasLen(t.RecvDeltas, len(t.RecvDeltas)) + specPad4(20 + 2*len(t.PacketChunks) + specDeltasLen(t.RecvDeltas, len(t.RecvDeltas))) && specDeltasLen(t.RecvDeltas, len(t.RecvDeltas)) >= 0
+//@     invariant 0 <= iter() && iter() <= len(t.RecvDeltas) && i == specDeltasLen(t.RecvDeltas, iter()) && len(payload) == 16 + 2*len(t.PacketChunks) + specDeltasLen(t.RecvDeltas, len(t.RecvDeltas)) + specPad4(20 + 2*len(t.PacketChunks) + specDeltasLen(t.RecvDeltas, len(t.RecvDeltas))) && specDeltasLen(t.RecvDeltas, len(t.RecvDeltas)) >= 0
 //@     invariant[C03] be32(payload, 0) == t.SenderSSRC && be32(payload, 4) == t.MediaSSRC && be16(payload, 8) == t.BaseSequenceNumber && be16(payload, 10) == t.PacketStatusCount && be24(payload, 12) == t.ReferenceTime&0xFFFFFF && payload[15] == t.FbPktCount
 //@     invariant[C08] forall k :: 0 <= k && k < iter() ==> (t.RecvDeltas[k].Type == 1 && 0 <= t.RecvDeltas[k].Delta/250 && t.RecvDeltas[k].Delta/250 <= 255) || (t.RecvDeltas[k].Type == 2 && -32768 <= t.RecvDeltas[k].Delta/250 && t.RecvDeltas[k].Delta/250 <= 32767)
 //@     decreases len(t.RecvDeltas) - iter()
@@ -1284,7 +1291,7 @@ package rtcp
 //@   trusted
 
 //@ func specXRDestCount(bs []ReportBlock, n int) (result int)
-//@   rec
+//@   rec monotone
 
 //@ func (t BlockTypeType) String() (result string)
 //@   safety[C17]
@@ -1474,6 +1481,7 @@ package rtcp
 
 //@ func lemmaRoundTripFIR(p FullIntraRequest) (q FullIntraRequest, err error, err2 error)
 //@   lemma
+//@   slow
 //@   requires nonempty: len(p.FIR) >= 1 && len(p.FIR) <= 8190
 //@   ensures[C02] decodes: err == nil ==> err2 == nil
 //@   ensures[C02] fields: err == nil ==> q.SenderSSRC == p.SenderSSRC && q.MediaSSRC == p.MediaSSRC && len(q.FIR) == len(p.FIR)
@@ -1505,6 +1513,7 @@ package rtcp
 
 //@ func lemmaReencodeBYE(raw []byte) (p Goodbye, q Goodbye, err error, err2 error, err3 error)
 //@   lemma
+//@   slow
 //@   ensures[C09] accepted: err == nil && err2 == nil ==> err3 == nil
 //@   ensures[C09] n: err == nil && err2 == nil ==> len(q.Sources) == len(p.Sources) && len(q.Reason) == len(p.Reason)
 //@   ensures[C09] sources: forall k :: err == nil && err2 == nil && 0 <= k && k < len(p.Sources) ==> q.Sources[k] == p.Sources[k]
@@ -1513,12 +1522,13 @@ package rtcp
 //@ func lemmaReencodeNACK(raw []byte) (p TransportLayerNack, q TransportLayerNack, err error, err2 error, err3 error)
 //@   lemma
 //@   requires frame: len(raw) <= 4*16383
-//@   ensures[C09] accepted: err == nil && err2 == nil ==> err3 == nil
-//@   ensures[C09] fields: err == nil && err2 == nil ==> q.SenderSSRC == p.SenderSSRC && q.MediaSSRC == p.MediaSSRC && len(q.Nacks) == len(p.Nacks)
-//@   ensures[C09] pairs: forall k :: err == nil && err2 == nil && 0 <= k && k < len(p.Nacks) ==> q.Nacks[k] == p.Nacks[k]
+//@   ensures[C09] accepted: err == nil && err2 == nil && be16(raw, 2) < 16384 ==> err3 == nil
+//@   ensures[C09] fields: err == nil && err2 == nil && be16(raw, 2) < 16384 ==> q.SenderSSRC == p.SenderSSRC && q.MediaSSRC == p.MediaSSRC && len(q.Nacks) == len(p.Nacks)
+//@   ensures[C09] pairs: forall k :: err == nil && err2 == nil && be16(raw, 2) < 16384 && 0 <= k && k < len(p.Nacks) ==> q.Nacks[k] == p.Nacks[k]
 
 //@ func lemmaReencodeFIR(raw []byte) (p FullIntraRequest, q FullIntraRequest, err error, err2 error, err3 error)
 //@   lemma
+//@   slow
 //@   requires frame: len(raw) <= 4*16383
 //@   ensures[C09] accepted: err == nil && err2 == nil && be16(raw, 2) < 16384 ==> err3 == nil
 //@   ensures[C09] fields: err == nil && err2 == nil && be16(raw, 2) < 16384 ==> q.SenderSSRC == p.SenderSSRC && q.MediaSSRC == p.MediaSSRC && len(q.FIR) == len(p.FIR)
